@@ -433,6 +433,22 @@ def c01_task(task):
         cv = g.cache_vals()
         if rng.random() < 0.08:
             cv['returned'] = rng.choice([True, True, False, 0, 1, b'', b'x', ''])      # an entry under the VM's own control key, of any truth value
+        if i % 20 == 7:
+            # directed: a lock whose IF / TRY is followed by the instructions that decide, behind scripts that contain no control flow at
+            # all or that end through RETURN, with and without an embedder entry under the control key -- the tail of the lock must run
+            op_ = gen.op
+            tails = [b'\x01' + op_('IF') + gen.u16(1) + b'\x01' + b'\x00' + op_('VERIFY'),                      # true if { true } false verify
+                     op_('IF') + gen.u16(0) + op_('POP0') + b'\x00',                                            # if { } pop0 false
+                     op_('TRY_EXCEPT') + gen.u16(1) + b'\x01' + gen.u16(0) + op_('POP0') + op_('POP0') + b'\x00',    # try { true } except { } pop0 pop0 false
+                     b'\x01' + op_('IF_ELSE') + gen.u16(1) + b'\x01' + gen.u16(1) + b'\x00' + op_('NOT')]        # true if { true } else { false } not
+            plain = [gen.push(b'\x01') + op_('POP0'), b'\x01\x01', gen.push(b'junk'), b'\x01']
+            mids = [b'\x01' + ret, b'\x01\x01' + op_('IF') + gen.u16(1) + ret, b'\x01' + op_('TRY_EXCEPT') + gen.u16(1) + ret + gen.u16(0)]
+            scripts = [rng.choice(plain)] + ([rng.choice(mids)] if rng.random() < 0.6 else []) + ([rng.choice(plain + mids)] if rng.random() < 0.3 else []) + [rng.choice(tails)]
+            cv = dict(cv)
+            cv.pop('returned', None)
+            if rng.random() < 0.5:
+                cv['returned'] = rng.choice([False, 0, b'', '', None, True, 1])
+            cfg = tsh.Cfg(contracts=contracts)
         st, iline, mline = tsh.compare_auth(model, scripts, cv, cfg)
         stats[st] += 1
         stats['verdict-true' if iline.startswith('verdict:1') else 'verdict-false'] += 1
